@@ -388,11 +388,25 @@ fn hist_strategy(_t: Tier) -> BoxedStrategy<Hist> {
             if !added.is_empty() {
                 let mut k = 0;
                 for o in ops.iter_mut() {
-                    if let Op::Remove(r) = o {
-                        if k % 2 == 0 {
-                            *r = added[(r.ttl as usize + k) % added.len()].clone();
+                    match o {
+                        Op::Remove(r) => {
+                            if k % 2 == 0 {
+                                *r = added[(r.ttl as usize + k) % added.len()].clone();
+                            }
+                            k += 1;
                         }
-                        k += 1;
+                        // receptions of a record that is (or was) also registered: same owner, class and rdata,
+                        // its own TTL and cache-flush bit
+                        Op::AddCached(r) => {
+                            if k % 2 == 0 {
+                                let twin = added[(r.ttl as usize + k) % added.len()].clone();
+                                r.name = twin.name;
+                                r.class = twin.class;
+                                r.rdata = twin.rdata;
+                            }
+                            k += 1;
+                        }
+                        _ => {}
                     }
                 }
             }
